@@ -43,6 +43,11 @@ Max(a, b) == IF a > b THEN a ELSE b
 V(t, n, s, p, q, c) == [t |-> t, n |-> n, s |-> s, p |-> p, q |-> q, c |-> c, i |-> 0]
 VInt(n)     == V("int", n, "", "", FALSE, <<>>)
 VStr(s)     == V("str", 0, s, "", FALSE, <<>>)
+\* floats: n = 16 x the value (dyadic rationals with four binary places are exact in float64, and so are their sums
+\* and the products that stay on that grid); s = "?" is a float whose magnitude the machine does not track (a product
+\* that leaves the grid): only its TYPE is predicted
+VFloat(n)   == V("float", n, "", "", FALSE, <<>>)
+VFloatAny   == V("float", 0, "?", "", FALSE, <<>>)
 VSym(s)     == V("sym", 0, s, "", FALSE, <<>>)
 VQSym(s)    == V("sym", 0, s, "", TRUE, <<>>)
 VPSym(p, s) == V("sym", 0, s, p, FALSE, <<>>)
@@ -77,7 +82,7 @@ FUNS   == {"+", "-", "*", "=", "<", ">", "<=", ">=", "not", "list", "cons", "car
            "load-string", "in-package", "use-package", "export", "capture",
            "macroexpand", "macroexpand-1", "eval", "gensym", "equal?",
            "map", "foldl", "foldr", "select", "reject", "any?", "all?", "nth", "second", "append", "concat", "reverse", "empty?",
-           "mod", "max", "min", "list?", "int?", "symbol?", "true?"}
+           "mod", "max", "min", "list?", "int?", "symbol?", "true?", "float?", "number?"}
 BuiltinKind(name) == IF name \in OPS THEN "op" ELSE IF name \in MACROS THEN "macro" ELSE "fun"
 BuiltinFID(v) == IF v.p = "op" THEN "<special-op ``" \o v.s \o "''>"
                  ELSE IF v.p = "macro" THEN "<builtin-macro ``" \o v.s \o "''>"
@@ -88,7 +93,7 @@ BuiltinFID(v) == IF v.p = "op" THEN "<special-op ``" \o v.s \o "''>"
 Arity(name) ==
   CASE name \in {"not", "car", "cdr", "first", "rest", "length", "identity", "nil?", "quote", "quasiquote", "macroexpand", "macroexpand-1", "eval"} -> <<1, 1>>
     [] name = "gensym" -> <<0, 0>>
-    [] name \in {"second", "empty?", "list?", "int?", "symbol?", "true?"} -> <<1, 1>>
+    [] name \in {"second", "empty?", "list?", "int?", "symbol?", "true?", "float?", "number?"} -> <<1, 1>>
     [] name \in {"nth", "mod", "any?", "all?", "reverse"} -> <<2, 2>>
     [] name \in {"map", "foldl", "foldr", "select", "reject"} -> <<3, 3>>
     [] name \in {"max", "min", "concat"} -> <<1, -1>>
@@ -370,6 +375,17 @@ BindOpt(fs, as, acc) ==
 CanCall(s) == s.ctl.mode = "call"
 
 IntArgs(args) == \A j \in 1..Len(args) : args[j].t = "int"
+\* the numeric tower: the result is an int if every argument is an int, otherwise a float
+NumArgs(args) == \A j \in 1..Len(args) : args[j].t \in {"int", "float"}
+AnyUntracked(args) == \E j \in 1..Len(args) : args[j].t = "float" /\ args[j].s = "?"
+Scaled(v) == IF v.t = "int" THEN 16 * v.n ELSE v.n
+RECURSIVE ScaledSum(_)
+ScaledSum(a) == IF Len(a) = 0 THEN 0 ELSE Scaled(a[1]) + ScaledSum(Rest(a))
+\* product on the grid: acc and every factor are 16 x their value; -1 in the second component when it leaves the grid
+RECURSIVE ScaledProd(_, _)
+ScaledProd(a, acc) == IF Len(a) = 0 THEN <<acc, 0>>
+                      ELSE LET p == acc * Scaled(a[1]) IN
+                           IF p % 16 # 0 THEN <<0, -1>> ELSE ScaledProd(Rest(a), p \div 16)
 RECURSIVE SumSeq(_)
 SumSeq(a) == IF Len(a) = 0 THEN 0 ELSE a[1].n + SumSeq(Rest(a))
 RECURSIVE ProdSeq(_)
@@ -398,10 +414,17 @@ ValEqual(a, b) ==
 \* pure builtins: value, or "fail" marker
 PureBuiltin(name, a) ==
   LET n == Len(a)  bad == [ok |-> FALSE, v |-> VNil]  good(v) == [ok |-> TRUE, v |-> v] IN
-  CASE name = "+" -> IF IntArgs(a) THEN good(VInt(SumSeq(a))) ELSE bad
-    [] name = "*" -> IF IntArgs(a) THEN good(VInt(ProdSeq(a))) ELSE bad
-    [] name = "-" -> IF ~IntArgs(a) \/ n = 0 THEN bad
-                     ELSE IF n = 1 THEN good(VInt(0 - a[1].n)) ELSE good(VInt(a[1].n - SumSeq(Rest(a))))
+  CASE name = "+" -> IF IntArgs(a) THEN good(VInt(SumSeq(a)))
+                     ELSE IF ~NumArgs(a) THEN bad
+                     ELSE IF AnyUntracked(a) THEN good(VFloatAny) ELSE good(VFloat(ScaledSum(a)))
+    [] name = "*" -> IF IntArgs(a) THEN good(VInt(ProdSeq(a)))
+                     ELSE IF ~NumArgs(a) THEN bad
+                     ELSE IF AnyUntracked(a) THEN good(VFloatAny)
+                     ELSE LET pr == ScaledProd(a, 16) IN IF pr[2] < 0 THEN good(VFloatAny) ELSE good(VFloat(pr[1]))
+    [] name = "-" -> IF n = 0 \/ ~NumArgs(a) THEN bad
+                     ELSE IF IntArgs(a) THEN (IF n = 1 THEN good(VInt(0 - a[1].n)) ELSE good(VInt(a[1].n - SumSeq(Rest(a)))))
+                     ELSE IF AnyUntracked(a) THEN good(VFloatAny)
+                     ELSE IF n = 1 THEN good(VFloat(0 - a[1].n)) ELSE good(VFloat(Scaled(a[1]) - ScaledSum(Rest(a))))
     [] name \in {"=", "<", ">", "<=", ">="} ->
                      IF IntArgs(a) THEN good(VBool(Cmp(name, a[1].n, a[2].n))) ELSE bad
     [] name = "not" -> good(VBool(~Truthy(a[1])))
@@ -419,6 +442,8 @@ PureBuiltin(name, a) ==
     [] name = "empty?" -> IF a[1].t \in {"list", "str"} THEN good(VBool(IF a[1].t = "list" THEN Len(a[1].c) = 0 ELSE a[1].s = "")) ELSE bad
     [] name = "list?" -> good(VBool(a[1].t = "list"))
     [] name = "int?" -> good(VBool(a[1].t = "int"))
+    [] name = "float?" -> good(VBool(a[1].t = "float"))
+    [] name = "number?" -> good(VBool(a[1].t \in {"int", "float"}))
     [] name = "symbol?" -> good(VBool(a[1].t = "sym"))
     [] name = "true?" -> good(VBool(Truthy(a[1])))
     [] name = "mod" -> IF IntArgs(a) /\ a[2].n # 0 THEN good(VInt(GoMod(a[1].n, a[2].n))) ELSE bad
@@ -436,7 +461,7 @@ PopCall(s) == [s EXCEPT !.frames = Pop(@), !.k = Pop(@)]
 \* stampMacroExpansion: nodes of the expansion that carry no source position take the macro call site
 RECURSIVE Stamp(_, _)
 Stamp(v, site) == IF v.t \in {"list", "quote"} THEN [v EXCEPT !.i = IF @ = 0 THEN site ELSE @, !.c = [j \in 1..Len(v.c) |-> Stamp(v.c[j], site)]]
-                  ELSE IF v.t \in {"int", "str", "sym"} THEN [v EXCEPT !.i = IF @ = 0 THEN site ELSE @]
+                  ELSE IF v.t \in {"int", "str", "sym", "float"} THEN [v EXCEPT !.i = IF @ = 0 THEN site ELSE @]
                   ELSE v
 
 \* set: PutGlobal in the current package, records the function name for stack traces
@@ -468,6 +493,9 @@ ExportNames(args) ==
             IF ~r1.ok THEN r1 ELSE LET r == ExportNames(Rest(args)) IN [ok |-> r.ok, names |-> r1.names \cup r.names]
        ELSE [ok |-> FALSE, names |-> {}]
 \* use-package: for every named package in order, bind each of its exports (by value, now) in the current package
+\* sorted order of the names the package histories export (TLC cannot compare strings); any other name sorts after them
+NameRank(x) == CASE x = "api" -> 1 [] x = "f" -> 2 [] x = "false" -> 3 [] x = "g" -> 4 [] x = "h" -> 5 [] x = "m" -> 6
+                 [] x = "true" -> 7 [] x = "x" -> 8 [] x = "y" -> 9 [] OTHER -> 500
 RECURSIVE UsePackages(_, _, _)
 UsePackages(s, args, env) ==
   IF Len(args) = 0 THEN [s EXCEPT !.ctl = Ret(VNil)]
@@ -476,9 +504,13 @@ UsePackages(s, args, env) ==
        ELSE IF a.s \notin DOMAIN s.pkgs THEN Fail(s, env)
        ELSE LET src == s.pkgs[a.s]
                 ex == src.exports IN
-            IF \E x \in ex : x \notin DOMAIN src.syms /\ x \notin {"true", "false"} THEN Fail(s, env)   \* (bindings made before the unbound export are kept; not modelled: see C08)
-            ELSE IF \E x \in ex : x \in {"true", "false"} THEN Fail(s, env)
-            ELSE UsePackages([s EXCEPT !.pkgs[s.pkg].syms = [x \in DOMAIN @ \cup ex |-> IF x \in ex THEN src.syms[x] ELSE @[x]]], Rest(args), env)
+            \* exports are imported one by one in the sorted order of their names; the first one that is unbound (or is
+            \* true / false, which cannot be bound) fails the call and the bindings made before it stay
+            LET badx == {x \in ex : x \notin DOMAIN src.syms \/ x \in {"true", "false"}}
+                firstbad == IF badx = {} THEN 1000 ELSE CHOOSE r \in {NameRank(x) : x \in badx} : \A x \in badx : r <= NameRank(x)
+                got == {x \in ex \ badx : NameRank(x) < firstbad}
+                s2 == [s EXCEPT !.pkgs[s.pkg].syms = [x \in DOMAIN @ \cup got |-> IF x \in got THEN src.syms[x] ELSE @[x]]] IN
+            IF badx # {} THEN Fail(s2, env) ELSE UsePackages(s2, Rest(args), env)
 
 FormalsOK(fl) == fl.t = "list" /\ \A j \in 1..Len(fl.c) : fl.c[j].t = "sym"
 
